@@ -776,6 +776,8 @@ type runner struct {
 	seen    map[string]bool
 	dist    vh.Counter
 	semCost int64
+	// sampleExtra > 0: also derive this many inputs from the AST when explicit inputs are given
+	sampleExtra int
 }
 
 func hexs(s string) string { return hex.EncodeToString([]byte(s)) }
@@ -995,6 +997,8 @@ func (rn *runner) process(pat string, inputs []string, source, note string, nInp
 		} else {
 			inputs = []string{"", "a"}
 		}
+	} else if rn.sampleExtra > 0 && re != nil {
+		inputs = append(append([]string{}, inputs...), rn.inputsFor(re, lits, minLen, rn.sampleExtra)...)
 	}
 
 	// the complete-WAF differential for a sample of the patterns
@@ -1202,9 +1206,10 @@ func Run(cfg vh.Config) (*vh.Result, error) {
 		for _, d := range docs {
 			rn.runDoc(d, "corpus")
 		}
+		rn.grids()
 		nIn := cfg.Pick(12, 24)
 		g := &pgen{r: rn.rng}
-		for i := 0; i < cfg.Pick(600, 6000); i++ {
+		for i := 0; i < cfg.Pick(330, 6000); i++ {
 			p, kind := g.pattern(cfg.Thorough())
 			rn.process(p, nil, "grammar", kind, nIn, true)
 		}
@@ -1217,8 +1222,8 @@ func Run(cfg vh.Config) (*vh.Result, error) {
 		rn.dist["crs_patterns_available"] = len(crs)
 		if !cfg.Thorough() {
 			rn.rng.Shuffle(len(crs), func(i, j int) { crs[i], crs[j] = crs[j], crs[i] })
-			if len(crs) > 80 {
-				crs = crs[:80]
+			if len(crs) > 60 {
+				crs = crs[:60]
 			}
 		}
 		for _, p := range crs {
@@ -1240,7 +1245,7 @@ func Run(cfg vh.Config) (*vh.Result, error) {
 	prelude := "Definition T : list (N * lrune) := [" + strings.Join(items, "; ") + "]."
 
 	// shards balanced by term size
-	const maxBytes = 220_000
+	const maxBytes = 230_000
 	start, size, k := 0, 0, 0
 	flush := func(end int) error {
 		if end <= start {
